@@ -527,7 +527,7 @@ theorem countdown_get : ∀ (n i v : Nat), (countdown n)[i]? = some v → v + i 
 
 theorem resolve_nodisp {tr : Name → Name} {g : Graph} (hnd : NoDispatch g) (node : Option NodeId)
     (name : Name) (rest : List Name) :
-    resolve tr g node name rest = .ok (g.getattr node (tr name), rest) := by
+    resolve tr g node name rest = .ok (g.getattr node (tr name), rest, []) := by
   unfold resolve
   cases h : g.getattr node (tr name) with
   | some s => rfl
@@ -537,13 +537,14 @@ theorem walkStep_nodisp {tr : Name → Name} {app : App} (hnd : NoDispatch app.g
     (st : WalkSt) (name : Name) (rest : List Name) :
     ∃ conf, walkStep tr app fp st name rest =
       .ok { node := app.g.getattr st.node (tr name), iter := rest,
-            trail := st.trail ++ [⟨name, app.g.getattr st.node (tr name), conf, rest.length⟩] } := by
+            trail := st.trail ++ [⟨name, app.g.getattr st.node (tr name), conf, rest.length⟩],
+            params := st.params } := by
   unfold walkStep
   rw [resolve_nodisp hnd]
   dsimp only
   have h1 : ¬ rest.length > rest.length + 1 := by omega
   have h2 : ¬ rest.length = rest.length + 1 := by omega
-  simp only [h1, h2, if_false]
+  simp only [h1, h2, if_false, List.append_nil]
   exact ⟨_, rfl⟩
 
 theorem walk_nodisp {tr : Name → Name} {app : App} (hnd : NoDispatch app.g) (fp : List Name) :
@@ -551,29 +552,31 @@ theorem walk_nodisp {tr : Name → Name} {app : App} (hnd : NoDispatch app.g) (f
       ∃ st', walk tr app fp fuel st = .ok st' ∧
         st'.trail.map (·.node) = st.trail.map (·.node) ++ chain tr app.g st.node st.iter ∧
         st'.trail.map (·.name) = st.trail.map (·.name) ++ st.iter ∧
-        st'.trail.map (·.segleft) = st.trail.map (·.segleft) ++ countdown st.iter.length := by
+        st'.trail.map (·.segleft) = st.trail.map (·.segleft) ++ countdown st.iter.length ∧
+        st'.params = st.params := by
   intro fuel
   induction fuel with
   | zero =>
     intro st hle
     have : st.iter = [] := List.eq_nil_of_length_eq_zero (by omega)
-    exact ⟨st, by simp [walk, this], by simp [this, chain], by simp [this], by simp [this, countdown]⟩
+    exact ⟨st, by simp [walk, this], by simp [this, chain], by simp [this], by simp [this, countdown], rfl⟩
   | succ n ih =>
     intro st hle
     unfold walk
     split
     · rename_i hit
-      exact ⟨st, rfl, by simp [hit, chain], by simp [hit], by simp [hit, countdown]⟩
+      exact ⟨st, rfl, by simp [hit, chain], by simp [hit], by simp [hit, countdown], rfl⟩
     · rename_i name rest hit
       obtain ⟨conf, hstep⟩ := walkStep_nodisp hnd fp st name rest
       rw [hstep]
       dsimp only
       rw [hit] at hle
-      obtain ⟨st', hw, h1, h2, h3⟩ := ih
+      obtain ⟨st', hw, h1, h2, h3, h4⟩ := ih
         { node := app.g.getattr st.node (tr name), iter := rest,
-          trail := st.trail ++ [⟨name, app.g.getattr st.node (tr name), conf, rest.length⟩] }
+          trail := st.trail ++ [⟨name, app.g.getattr st.node (tr name), conf, rest.length⟩],
+          params := st.params }
         (by simp only [List.length_cons] at hle; dsimp only; omega)
-      refine ⟨st', hw, ?_, ?_, ?_⟩
+      refine ⟨st', hw, ?_, ?_, ?_, h4⟩
       · rw [h1, hit]; simp [chain]
       · rw [h2, hit]; simp
       · rw [h3, hit]; simp [countdown]
@@ -588,7 +591,7 @@ theorem C02_trail_spec {tr : Name → Name} {app : App} (hnd : NoDispatch app.g)
       trail.map (·.segleft) = countdown (segs.length + 2) := by
   unfold trailOf
   dsimp only
-  obtain ⟨st', hw, h1, h2, h3⟩ := walk_nodisp (tr := tr) hnd (fullpathOf segs) (fullpathOf segs).length
+  obtain ⟨st', hw, h1, h2, h3, _⟩ := walk_nodisp (tr := tr) hnd (fullpathOf segs) (fullpathOf segs).length
     { node := some app.g.root, iter := fullpathOf segs,
       trail := [rootEntry app (fullpathOf segs).length] } (Nat.le_refl _)
   rw [hw]
@@ -596,6 +599,18 @@ theorem C02_trail_spec {tr : Name → Name} {app : App} (hnd : NoDispatch app.g)
   · simpa [rootEntry] using h1
   · simpa [rootEntry] using h2
   · rw [h3]; simp [rootEntry, fullpathOf, countdown]
+
+/-- Without `_cp_dispatch` nothing reaches `request.params` from the path: the handler's keyword
+    arguments come from the query string / body only. -/
+theorem C02_no_params_without_dispatch {tr : Name → Name} {app : App} (hnd : NoDispatch app.g)
+    (segs : List Name) : paramsOf tr app segs = [] := by
+  unfold paramsOf
+  dsimp only
+  obtain ⟨st', hw, _, _, _, h4⟩ := walk_nodisp (tr := tr) hnd (fullpathOf segs) (fullpathOf segs).length
+    { node := some app.g.root, iter := fullpathOf segs,
+      trail := [rootEntry app (fullpathOf segs).length] } (Nat.le_refl _)
+  rw [hw]
+  exact h4
 
 /-- **C02, vpath.**  Without dispatchers: the handler found at trail index `i` belongs to the object
     reached through the first `i` names, and the virtual path is exactly the remaining segments:
